@@ -133,6 +133,7 @@ def run(chk):
         # inputs of repaired escapes stay in (KF-C10-8, KF-C10-9)
         for t, dia in [("insert into x select (select max(q.a) from (select 1 as a) q) as m from t1", "ansi"),
                        ("insert into x select (select max(q.a) from (select 1 as a) q) as m from t1", "sparksql"),
+                       ("select b.from (select 1) t", "non-validating"), ("insert into t select a.from (select x from y) q", "non-validating"),
                        ("update only t set a = b", "postgres"), ("update only t set a = s.b from s where t.k in (select k from r)", "postgres")]:
             jobs.append({"text": t, "dialect": dia, "silent": False})
         # valid column-level statements from Col.tla (every statement kind, random expression trees) under random dialects
